@@ -18,6 +18,16 @@ use std::sync::{Arc, Mutex};
 use std::task::{Context, Poll};
 use uuid::Uuid;
 
+/// What `TaskDb::sync` makes of a history segment received from the server.
+pub fn decode_version(history_segment: &[u8]) -> Result<Vec<crate::Operation>> {
+    crate::taskdb::verif_decode(history_segment)
+}
+
+/// The history segment `TaskDb::sync` sends for these local operations (as one batch).
+pub fn encode_version(ops: Vec<crate::Operation>) -> Vec<u8> {
+    crate::taskdb::verif_encode(ops)
+}
+
 /// Seal `payload` for `version_id` with the key derived from `secret` and `salt`.
 pub fn seal(salt: &[u8], secret: &[u8], version_id: Uuid, payload: Vec<u8>) -> Result<Vec<u8>> {
     let c = Cryptor::new(salt, &Secret(secret.to_vec()))?;
